@@ -1,7 +1,175 @@
 -------------------------------- MODULE SemF --------------------------------
+(***************************************************************************)
+(* L2: floating point functions.  A float is the record                    *)
+(*   [v (signed integer formed by its limbs), sz (signed limb count),      *)
+(*    exp (exponent in limbs), prec (precision in limbs)]                  *)
+(* and denotes the dyadic rational v * 2^(64*(exp - |sz|)).                *)
+(*                                                                         *)
+(* C13: results of add, sub, mul, div, sqrt, their _ui forms and set_q,    *)
+(* set_z, set_d differ from the exact value X by less than 2^(2-p)*|X|     *)
+(* with p = mpf_get_prec(rop) = 64*prec - 64, and equal X whenever the     *)
+(* operands and X each fit in p bits.  Everything is computed exactly on   *)
+(* dyadic rationals <<m, e>> = m * 2^e (no tolerance invented here).       *)
+(***************************************************************************)
 EXTENDS Naturals, Integers, Sequences, BigZ, Dbl
-FunsF == {}
-PostF(f, A, O, r, x, gl) == FALSE
-DefPrecLimbs(b) == 2
-SigF(f, A) == FALSE
+
+FunsF == {"mpf_init", "mpf_init2", "mpf_clear", "mpf_init_set", "mpf_init_set_ui", "mpf_init_set_si", "mpf_init_set_d",
+          "mpf_set_prec", "mpf_set_prec_raw", "mpf_get_prec", "mpf_set", "mpf_set_ui", "mpf_set_si", "mpf_set_d", "mpf_set_z", "mpf_set_q",
+          "mpf_swap", "mpf_add", "mpf_sub", "mpf_mul", "mpf_div", "mpf_add_ui", "mpf_sub_ui", "mpf_ui_sub", "mpf_mul_ui", "mpf_div_ui",
+          "mpf_ui_div", "mpf_sqrt", "mpf_sqrt_ui", "mpf_neg", "mpf_abs", "mpf_mul_2exp", "mpf_div_2exp", "mpf_floor", "mpf_ceil",
+          "mpf_trunc", "mpf_integer_p", "mpf_cmp", "mpf_cmp_ui", "mpf_cmp_si", "mpf_cmp_d", "mpf_sgn", "mpf_get_d", "mpf_get_d_2exp",
+          "mpf_get_ui", "mpf_get_si", "mpf_fits_ulong_p", "mpf_fits_slong_p", "mpf_fits_uint_p", "mpf_fits_sint_p", "mpf_fits_ushort_p",
+          "mpf_fits_sshort_p", "mpf_fits_ui_p", "mpf_fits_si_p", "mpz_set_f", "mpq_set_f", "mpf_set_default_prec", "drv_setf"}
+
+LOCAL SgnI(i) == IF i > 0 THEN 1 ELSE IF i < 0 THEN -1 ELSE 0
+LOCAL Bool(r, c) == (r # 0) = c
+LOCAL I(h) == ZToInt(h)
+LOCAL AbsI(i) == IF i < 0 THEN -i ELSE i
+LOCAL MaxI(a, b) == IF a > b THEN a ELSE b
+
+BitsToPrec(n) == (MaxI(53, n) + 2 * 64 - 1) \div 64          \* __GMPF_BITS_TO_PREC
+PrecBits(f) == 64 * f.prec - 64                               \* mpf_get_prec
+DefPrecLimbs(b) == BitsToPrec(I(b))
+
+(* ---- dyadic rationals <<m, e>> = m * 2^e ---- *)
+Dy(f) == <<f.v, 64 * (f.exp - AbsI(f.sz))>>
+DyZ(z) == <<z, 0>>
+DyAlign(a, b) == LET e == IF a[2] < b[2] THEN a[2] ELSE b[2] IN <<ZShl(a[1], a[2] - e), ZShl(b[1], b[2] - e), e>>
+DyAdd(a, b) == LET t == DyAlign(a, b) IN <<ZAdd(t[1], t[2]), t[3]>>
+DyNeg(a) == <<ZNeg(a[1]), a[2]>>
+DySub(a, b) == DyAdd(a, DyNeg(b))
+DyMul(a, b) == <<ZMul(a[1], b[1]), a[2] + b[2]>>
+DyAbs(a) == <<ZAbs(a[1]), a[2]>>
+DyCmp(a, b) == LET t == DyAlign(a, b) IN ZCmp(t[1], t[2])
+DyEq(a, b) == DyCmp(a, b) = 0
+DyShl(a, k) == <<a[1], a[2] + k>>
+DyIsZero(a) == a[1] = "0"
+(* number of significant bits of the mantissa once trailing zero bits are removed *)
+DySigBits(a) == IF a[1] = "0" THEN 0 ELSE ZBitLen(a[1]) - ZCtz(a[1])
+DyOfDbl(d) == <<DSigned(d), DExp(d)>>
+(* integer part toward zero / floor / ceil of a dyadic, as integers *)
+DyTrunc(a) == IF a[2] >= 0 THEN ZShl(a[1], a[2]) ELSE ZTDivQ(a[1], ZPow2(-a[2]))
+DyFloor(a) == IF a[2] >= 0 THEN ZShl(a[1], a[2]) ELSE ZShr(a[1], -a[2])
+DyCeil(a) == IF a[2] >= 0 THEN ZShl(a[1], a[2]) ELSE ZCDivQ(a[1], ZPow2(-a[2]))
+
+(* |R - X| < 2^(2-p) * |X| ; X = 0 forces R = 0 *)
+Close(R, X, p) == IF DyIsZero(X) THEN DyIsZero(R)
+                  ELSE DyCmp(DyShl(DyAbs(DySub(R, X)), p - 2), DyAbs(X)) < 0
+(* accuracy + exactness clause for a result whose exact value X is dyadic *)
+AccurateDy(R, X, p, operandsFit) ==
+   /\ Close(R, X, p)
+   /\ (operandsFit /\ DySigBits(X) <= p) => DyEq(R, X)
+Fits(a, p) == DySigBits(a) <= p
+
+(* quotient A/B (B # 0), both dyadic: |R*B - A| * 2^(p-2) < |A|; exact when A/B is a dyadic of at most p bits *)
+AccurateQuot(R, A, B, p, operandsFit) ==
+   IF DyIsZero(A) THEN DyIsZero(R)
+   ELSE /\ DyCmp(DyShl(DyAbs(DySub(DyMul(R, B), A)), p - 2), DyAbs(A)) < 0
+        /\ LET oa == ZShr(ZAbs(A[1]), ZCtz(A[1]))   ob == ZShr(ZAbs(B[1]), ZCtz(B[1])) IN
+           (operandsFit /\ ZDivides(ob, oa) /\ ZBitLen(ZTDivQ(oa, ob)) <= p) => DyEq(DyMul(R, B), A)
+(* square root of A >= 0: (1-d)^2 A < R^2 < (1+d)^2 A with d = 2^(2-p), R >= 0; exact when A is a square of a p-bit dyadic *)
+AccurateSqrt(R, A, p, operandsFit) ==
+   IF DyIsZero(A) THEN DyIsZero(R)
+   ELSE LET k  == p - 2
+            R2 == DyShl(DyMul(R, R), 2 * k)                                  \* R^2 * 2^(2k)
+            up == DyMul(DyZ(ZMul(ZAdd(ZPow2(k), "1"), ZAdd(ZPow2(k), "1"))), A)   \* (2^k+1)^2 * A
+            lo == DyMul(DyZ(ZMul(ZSub(ZPow2(k), "1"), ZSub(ZPow2(k), "1"))), A)
+            \* normalise A = o * 2^(even exponent)
+            tz == ZCtz(A[1])
+            ev == (A[2] + tz) % 2 = 0
+            o  == IF ev THEN ZShr(A[1], tz) ELSE ZShl(ZShr(A[1], tz), 1)
+            s  == ZISqrt(o)
+        IN  /\ ~ZIsNeg(R[1]) /\ DyCmp(R2, up) < 0 /\ DyCmp(lo, R2) < 0
+            /\ (operandsFit /\ ZMul(s, s) = o /\ ZBitLen(s) <= p) => DyEq(DyMul(R, R), A)
+
+(* "exact on the stored value" for copies into a destination: equal when the value fits the destination, otherwise a
+   truncation toward zero within the accuracy bound *)
+CopyOf(R, X, p) == IF Fits(X, p) THEN DyEq(R, X)
+                   ELSE /\ Close(R, X, p) /\ DyCmp(DyAbs(R), DyAbs(X)) <= 0 /\ (ZSgn(R[1]) = ZSgn(X[1]) \/ DyIsZero(R))
+
+SigF(f, A) == CASE f \in {"mpf_div"} -> DyIsZero(Dy(A[3]))
+                [] f = "mpf_div_ui" -> A[3] = "0"
+                [] f = "mpf_ui_div" -> DyIsZero(Dy(A[3]))
+                [] f = "mpf_sqrt" -> A[2].sz < 0
+                [] OTHER -> FALSE
+
+RangeOK(z, lo, hi) == ZLe(lo, z) /\ ZLe(z, hi)
+
+PostF(f, A, O, r, x, gl) ==
+   LET R == IF f \in {"mpz_set_f", "mpq_set_f"} THEN <<"0", 0>> ELSE Dy(O[1])
+       p == IF f \in {"mpz_set_f", "mpq_set_f"} THEN 0 ELSE PrecBits(O[1])
+   IN
+   CASE f = "mpf_init" -> DyIsZero(R) /\ O[1].prec = gl.defprec
+     [] f = "mpf_init2" -> DyIsZero(R) /\ O[1].prec = BitsToPrec(I(A[2]))
+     [] f = "mpf_clear" -> TRUE
+     [] f = "drv_setf" -> TRUE
+     [] f = "mpf_set_default_prec" -> TRUE
+     [] f = "mpf_init_set" -> O[1].prec = gl.defprec /\ CopyOf(R, Dy(A[2]), p)
+     [] f \in {"mpf_init_set_ui", "mpf_init_set_si"} -> O[1].prec = gl.defprec /\ DyEq(R, DyZ(A[2]))
+     [] f = "mpf_init_set_d" -> O[1].prec = gl.defprec /\ DyEq(R, DyOfDbl(A[2]))
+     [] f = "mpf_set_prec" -> O[1].prec = BitsToPrec(I(A[2])) /\ CopyOf(R, Dy(A[1]), PrecBits(O[1]) + 64)
+     [] f = "mpf_set_prec_raw" -> O[1].prec = BitsToPrec(I(A[2])) /\ O[1].v = A[1].v /\ O[1].exp = A[1].exp
+     [] f = "mpf_get_prec" -> r = ZFromInt(PrecBits(A[1]))
+     [] f = "mpf_set" -> CopyOf(R, Dy(A[2]), p) /\ O[1].prec = A[1].prec
+     [] f \in {"mpf_set_ui", "mpf_set_si"} -> DyEq(R, DyZ(A[2]))
+     [] f = "mpf_set_d" -> DyEq(R, DyOfDbl(A[2]))
+     [] f = "mpf_set_z" -> AccurateDy(R, DyZ(A[2]), p, TRUE)
+     [] f = "mpf_set_q" -> AccurateQuot(R, DyZ(A[2][1]), DyZ(A[2][2]), p, TRUE)
+     [] f = "mpf_swap" -> /\ O[1].v = A[2].v /\ O[1].exp = A[2].exp /\ O[1].prec = A[2].prec
+                          /\ O[2].v = A[1].v /\ O[2].exp = A[1].exp /\ O[2].prec = A[1].prec
+     [] f = "mpf_add" -> AccurateDy(R, DyAdd(Dy(A[2]), Dy(A[3])), p, Fits(Dy(A[2]), p) /\ Fits(Dy(A[3]), p))
+     [] f = "mpf_sub" -> AccurateDy(R, DySub(Dy(A[2]), Dy(A[3])), p, Fits(Dy(A[2]), p) /\ Fits(Dy(A[3]), p))
+     [] f = "mpf_mul" -> AccurateDy(R, DyMul(Dy(A[2]), Dy(A[3])), p, Fits(Dy(A[2]), p) /\ Fits(Dy(A[3]), p))
+     [] f = "mpf_div" -> AccurateQuot(R, Dy(A[2]), Dy(A[3]), p, Fits(Dy(A[2]), p) /\ Fits(Dy(A[3]), p))
+     [] f = "mpf_add_ui" -> AccurateDy(R, DyAdd(Dy(A[2]), DyZ(A[3])), p, Fits(Dy(A[2]), p))
+     [] f = "mpf_sub_ui" -> AccurateDy(R, DySub(Dy(A[2]), DyZ(A[3])), p, Fits(Dy(A[2]), p))
+     [] f = "mpf_ui_sub" -> AccurateDy(R, DySub(DyZ(A[2]), Dy(A[3])), p, Fits(Dy(A[3]), p))
+     [] f = "mpf_mul_ui" -> AccurateDy(R, DyMul(Dy(A[2]), DyZ(A[3])), p, Fits(Dy(A[2]), p))
+     [] f = "mpf_div_ui" -> AccurateQuot(R, Dy(A[2]), DyZ(A[3]), p, Fits(Dy(A[2]), p))
+     [] f = "mpf_ui_div" -> AccurateQuot(R, DyZ(A[2]), Dy(A[3]), p, Fits(Dy(A[3]), p))
+     [] f = "mpf_sqrt" -> AccurateSqrt(R, Dy(A[2]), p, Fits(Dy(A[2]), p))
+     [] f = "mpf_sqrt_ui" -> AccurateSqrt(R, DyZ(A[2]), p, TRUE)
+     [] f = "mpf_neg" -> CopyOf(R, DyNeg(Dy(A[2])), p)
+     [] f = "mpf_abs" -> CopyOf(R, DyAbs(Dy(A[2])), p)
+     [] f = "mpf_mul_2exp" -> CopyOf(R, DyShl(Dy(A[2]), I(A[3])), p)
+     [] f = "mpf_div_2exp" -> CopyOf(R, DyShl(Dy(A[2]), -I(A[3])), p)
+     [] f = "mpf_floor" -> CopyOf(R, DyZ(DyFloor(Dy(A[2]))), p)
+     [] f = "mpf_ceil" -> CopyOf(R, DyZ(DyCeil(Dy(A[2]))), p)
+     [] f = "mpf_trunc" -> CopyOf(R, DyZ(DyTrunc(Dy(A[2]))), p)
+     [] f = "mpf_integer_p" -> Bool(r, DyEq(DyZ(DyTrunc(Dy(A[1]))), Dy(A[1])))
+     [] f = "mpf_cmp" -> SgnI(r) = DyCmp(Dy(A[1]), Dy(A[2]))
+     [] f \in {"mpf_cmp_ui", "mpf_cmp_si"} -> SgnI(r) = DyCmp(Dy(A[1]), DyZ(A[2]))
+     [] f = "mpf_cmp_d" -> IF DIsInf(A[2]) THEN SgnI(r) = (IF A[2][1] = 1 THEN 1 ELSE -1)
+                           ELSE SgnI(r) = DyCmp(Dy(A[1]), DyOfDbl(A[2]))
+     [] f = "mpf_sgn" -> r = ZSgn(A[1].v)
+     [] f = "mpf_get_d" ->       \* truncation toward zero to 53 bits; outside the double range: system dependent
+           LET X == Dy(A[1])  top == IF DyIsZero(X) THEN 0 ELSE ZBitLen(X[1]) + X[2] IN
+           IF DyIsZero(X) THEN DIsZero(r)
+           ELSE IF top > 1023 \/ top < -1020 THEN TRUE
+           ELSE /\ DIsFinite(r) /\ r[2] > 0 /\ r[1] = (IF ZIsNeg(X[1]) THEN 1 ELSE 0)
+                /\ LET sh == ZBitLen(X[1]) - 53
+                       m  == IF sh >= 0 THEN ZShr(ZAbs(X[1]), sh) ELSE ZShl(ZAbs(X[1]), -sh)
+                   IN  DMant(r) = m /\ DExp(r) = X[2] + sh
+     [] f = "mpf_get_d_2exp" ->
+           LET X == Dy(A[1]) IN
+           IF DyIsZero(X) THEN DIsZero(r) /\ x = "0"
+           ELSE LET bl == ZBitLen(X[1])
+                    m == IF bl >= 53 THEN ZShr(ZAbs(X[1]), bl - 53) ELSE ZShl(ZAbs(X[1]), 53 - bl)
+                IN  /\ DIsFinite(r) /\ DMant(r) = m /\ DExp(r) = -53 /\ r[1] = (IF ZIsNeg(X[1]) THEN 1 ELSE 0)
+                    /\ x = ZFromInt(bl + X[2])
+     [] f = "mpf_get_ui" -> LET t == DyTrunc(Dy(A[1])) IN RangeOK(ZAbs(t), "0", "ffffffffffffffff") => r = ZAbs(t)
+     [] f = "mpf_get_si" -> LET t == DyTrunc(Dy(A[1])) IN RangeOK(t, "-8000000000000000", "7fffffffffffffff") => r = t
+     [] f \in {"mpf_fits_ulong_p", "mpf_fits_ui_p"} -> Bool(r, RangeOK(DyTrunc(Dy(A[1])), "0", "ffffffffffffffff"))
+     [] f \in {"mpf_fits_slong_p", "mpf_fits_si_p"} -> Bool(r, RangeOK(DyTrunc(Dy(A[1])), "-8000000000000000", "7fffffffffffffff"))
+     [] f = "mpf_fits_uint_p" -> Bool(r, RangeOK(DyTrunc(Dy(A[1])), "0", "ffffffff"))
+     [] f = "mpf_fits_sint_p" -> Bool(r, RangeOK(DyTrunc(Dy(A[1])), "-80000000", "7fffffff"))
+     [] f = "mpf_fits_ushort_p" -> Bool(r, RangeOK(DyTrunc(Dy(A[1])), "0", "ffff"))
+     [] f = "mpf_fits_sshort_p" -> Bool(r, RangeOK(DyTrunc(Dy(A[1])), "-8000", "7fff"))
+     [] f = "mpz_set_f" -> O[1].v = DyTrunc(Dy(A[2]))
+     [] f = "mpq_set_f" ->       \* exact conversion, canonical
+           LET X == Dy(A[2]) IN
+           IF X[2] >= 0 THEN O[1].n.v = ZShl(X[1], X[2]) /\ O[1].d.v = "1"
+           ELSE LET g == ZGcd(X[1], ZPow2(-X[2])) IN
+                IF X[1] = "0" THEN O[1].n.v = "0" /\ O[1].d.v = "1"
+                ELSE O[1].n.v = ZTDivQ(X[1], g) /\ O[1].d.v = ZTDivQ(ZPow2(-X[2]), g)
 =============================================================================
